@@ -284,7 +284,7 @@ func randFam(ri *core.RegionsInfo, fam string, store uint64, ranges []core.KeyRa
 func (w *world) exec(o *rop) (obs string) {
 	defer func() {
 		if e := recover(); e != nil {
-			obs = "RoBad \"panic\""
+			obs = "RoBad \"nil-deref\""
 		}
 	}()
 	ri := w.ri
@@ -391,10 +391,17 @@ type riGen struct {
 	stores int
 	stamp  int64
 	cached map[uint64]c07x.Region // what the driver believes is cached (only to aim queries)
+	dead   bool
 }
 
 func (g *riGen) step(o rop) string {
+	if g.dead {
+		return ""
+	}
 	ob := g.w.exec(&o)
+	if o.K == "set" && strings.HasPrefix(ob, "RoBad") {
+		g.dead = true // the real object may be half-updated after a panic: the case ends here
+	}
 	g.c.Ops = append(g.c.Ops, o)
 	g.c.Obs = append(g.c.Obs, ob)
 	return ob
@@ -694,6 +701,22 @@ func foreignPendingProbe(variant int) riCase {
 	return c
 }
 
+// sharedStoreProbe: two peers of one region on the same store, then an in-place update that only changes
+// the size: the follower size of that store must follow the region's size.
+func sharedStoreProbe() riCase {
+	c := riCase{Kind: "ri", tags: map[string]int{"probe:shared-store": 1}}
+	g := &riGen{r: rng.New(7), a: c07x.Small(), w: &world{ri: core.NewRegionsInfo()}, c: &c, stores: 3, cached: map[uint64]c07x.Region{}}
+	x := c07x.Region{ID: 1, Start: "a", End: "c", Peers: []c07x.Peer{{101, 1, false}, {102, 2, false}, {103, 2, false}}, Leader: 101,
+		Size: 10, Ver: 1, ConfVer: 1, Term: 1, Stamp: 1}
+	g.step(rop{K: "set", R: &x})
+	g.step(rop{K: "counts", Store: 2})
+	y := x.Clone()
+	y.Size, y.Stamp = 30, 2
+	g.step(rop{K: "set", R: &y})
+	g.step(rop{K: "counts", Store: 2})
+	return c
+}
+
 // ---------------------------------------------------------------------------------------------
 
 type anyCase struct {
@@ -824,6 +847,7 @@ func main() {
 		// the probes for the excluded input class (pending peer on a store without a peer)
 		emitRI(foreignPendingProbe(0))
 		emitRI(foreignPendingProbe(1))
+		emitRI(sharedStoreProbe())
 		degrees := []int{2, 3, 4, 64}
 		nbt := *n / 2
 		for k := 0; k < nbt; k++ {
